@@ -49,10 +49,15 @@ Two further families exercise loop nests (riscv only; x86_scf.for and frep are n
   (an op without declared memory effects) in the same or in the enclosing body, with 0..5 (7) values live across
   the loop and pools of 3..10 registers.
 
+* `rv-forpre`: the init value of a loop-carried value is defined first, then 0..2 binary ops on function arguments /
+  earlier temporaries (they need fresh operand registers above the loop), then the loop; pools of 4..8 and the pass;
+* `rv-getreg-in-body`: a get_register with an allocated type (t0, a0, t1, a1, ..) INSIDE a loop body of depth 1 or 2,
+  consumed by an inner loop op (ub / lb / step) and / or a plain op, with 0..5 (7) values live across the nest.
+
 Signatures name the cause class so that different defects stay apart: `...|clobbered-live-value|<class>` and
 `...|two-live-values-share-register[|<class>]` where <class> is `register-of-unused-get_register` (the shared
 register is pre-allocated in the input, but only to unused get_register results), `preallocated-register-reused`,
-`preallocated-register-used-only-in-loop-body`, `loop|...` (programs with a riscv_scf.for: which value was read /
+`preallocated-register-used-only-in-loop-body`, `preallocated-register-defined-in-loop-body`, `loop|...` (programs with a riscv_scf.for: which value was read /
 which pair collided), `nest|...` (the value is an operand of an inner loop op and defined outside the whole nest),
 or the kind of the op that overwrote the register.
 """
@@ -1502,7 +1507,8 @@ def run(ctx):
     ctx.rule = ("every single-block function whose body is an op sequence of length 1..nops over the configuration's "
                 "alphabet with every operand wiring over earlier values and arguments, times every return-operand "
                 "subset up to ret_max, times every argument configuration; plus every depth-2 loop nest of family "
-                "rv-nest and every program of family rv-prenest (see the module docstring); one state = one program; "
+                "rv-nest and every program of families rv-prenest, rv-forpre, rv-getreg-in-body (see the module "
+                "docstring); one state = one program; "
                 "transitions = "
                 "generator-tree edges (ops appended); executions = runs of the real allocator (one per program and "
                 "pool/mode) judged by the oracle; non-trivial = a program for which some pool made the allocator "
